@@ -20,8 +20,10 @@ RULE = ('for every kind of evaluable object (reduced error / mechanistic / popul
         'non-trivial = interleaving of >=2 evaluation kinds with fixed parameters or >=2 objects; distinct = '
         '(object kind, interleaving shape)')
 ASSUMPTIONS = ['process forking / pickling is runtime behaviour: observed, not proved',
-               'objects own deep copies of user models (structural assumption of the model, observed by the '
-               'sibling / later-mutation checks)']
+               'objects own deep copies of the models they are built from: the store model (Ownership.lean) makes '
+               'that explicit and the C19.world correspondence checks it for reduced error models and likelihoods; '
+               'for the other ingredients (mechanistic / population models, controllers) it is observed by the '
+               'sibling / later-mutation checks']
 
 TAG17 = 'C19.result_aliases_hidden_buffer'
 
@@ -511,7 +513,7 @@ def parallel(ctx, chi, rng, n_points=4):
 
 def run(ctx):
     chi = core.import_chi()
-    n = 60 if ctx.tier == 'quick' else 3000
+    n = 120 if ctx.tier == 'quick' else 3000
     for i in range(n):
         rng = ctx.sub_rng(i)
         z = Zoo(chi, rng)
